@@ -32,7 +32,8 @@ LEVEL_TEXT = ("2-4 real send_message callers share one (read, write) pair on a v
               " Also unread messages queued before the callers start, and a burst ahead of a single caller's answer over stdio."
               ' Also server requests that reuse an outstanding id on the per-request API, several sequential requests under one id, and series of 101-135 requests under fresh ids. Every case also runs under the dependency-free validation backend.'
               ' Also concurrent callers of the same param-less method whose requests the peer reads only after all were written.'
-              ' Also per-request streams registered up front or in the same loop turn.')
+              ' Also per-request streams registered up front or in the same loop turn.'
+              ' Also, on the per-request API, answers whose payload is false in Python ({} for a ping, [], 0, "", false) and callers whose ids are an integer and the string spelling it.')
 LEVEL_NOTE = ("Trusted: virtual-time loop, anyio memory streams' FIFO waiter order, the oracle. The loss of "
               "out-of-order answers (consumed and discarded by another waiter) is a recorded known finding; "
               "every other loss mechanism and any cross-talk is a violation.")
@@ -440,8 +441,12 @@ def exec_stdio_routed_case(ctx, case: Dict[str, Any]) -> None:
                     if case.get("srv_req_same_id"):
                         # before answering, the server makes a request of its own that happens to use the same id
                         own_req = (json.dumps({"jsonrpc": "2.0", "id": r["id"], "method": "ping"}) + "\n").encode()
+                    result: Any = {"tag": r["params"]["tag"]}
+                    if "payload" in case and r["params"]["tag"].endswith("caller-0"):
+                        # what a ping is answered with ({}), or any other payload that is false in Python: still the answer
+                        result = case["payload"]
                     p.feed(own_req + (json.dumps({"jsonrpc": "2.0", "method": "notifications/message", "params": {"level": "info"}}) + "\n"
-                                      + json.dumps({"jsonrpc": "2.0", "id": r["id"], "result": {"tag": r["params"]["tag"]}}) + "\n").encode())
+                                      + json.dumps({"jsonrpc": "2.0", "id": r["id"], "result": result}) + "\n").encode())
         p.stdin.send = send
         return p
 
@@ -455,15 +460,25 @@ def exec_stdio_routed_case(ctx, case: Dict[str, Any]) -> None:
             except Exception:
                 pass
 
+        def id_of(i):
+            if case["ids"] == "type_twins":
+                # callers 0/1 share the digits 1, callers 2/3 the digits 2: an integer id and the string spelling it
+                return (i // 2 + 1) if i % 2 == 0 else str(i // 2 + 1)
+            return str(i + 1) if case["ids"] == "str" else i + 1
+
+        def key_of(rid):
+            # what the stream is registered under: the id itself when ids of both types are in use, its text otherwise
+            return rid if case["ids"] == "type_twins" else str(rid)
+
         async def caller(name, client, i):
-            rid: Any = str(i + 1) if case["ids"] == "str" else i + 1
+            rid: Any = id_of(i)
             for rnd in range(rounds):
                 if case.get("fresh_ids"):
                     rid = f"{i + 1}.{rnd}"
                 key = f"{name}-{i}" if rounds == 1 else f"{name}-{i}r{rnd}"
                 tag = f"{name}-caller-{i}" if rounds == 1 else f"{name}-caller-{i}r{rnd}"
                 # (in later rounds this registration follows the previous receive() without any checkpoint in between)
-                recv = client.new_request_stream(str(rid))
+                recv = client.new_request_stream(key_of(rid))
                 await client.send_json(create_request("tools/call", {"tag": tag}, id=rid))
                 with anyio.move_on_after(TIMEOUT) as scope:
                     try:
@@ -501,8 +516,8 @@ def exec_stdio_routed_case(ctx, case: Dict[str, Any]) -> None:
                     # every caller's stream is registered first, then the requests go out together
                     regs = []
                     for i in range(n):
-                        rid: Any = str(i + 1) if case["ids"] == "str" else i + 1
-                        regs.append((i, client.new_request_stream(str(rid)), rid))
+                        rid: Any = id_of(i)
+                        regs.append((i, client.new_request_stream(key_of(rid)), rid))
                     for i, recv, rid in regs:
                         tasks.append(asyncio.create_task(caller_preregistered(name, client, i, recv, rid), name=f"{name}-caller-{i}"))
                 else:
@@ -539,7 +554,13 @@ def exec_stdio_routed_case(ctx, case: Dict[str, Any]) -> None:
         own = f"{name}-caller-{i}"   # (i carries the round suffix when there are several rounds)
         if kind == "got":
             res = getattr(val, "result", None)
-            if not (isinstance(res, dict) and res.get("tag") == own):
+            if "payload" in case and own.endswith("caller-0"):
+                want_id = (str(1) if case["ids"] == "str" else 1)
+                if not (strict_eq(res, case["payload"]) and strict_eq(getattr(val, "id", None), want_id)
+                        and getattr(val, "error", None) is None):
+                    ctx.violation("cross_talk", f"per-request routing: {own} (id {want_id!r}, answered {case['payload']!r}) was handed "
+                                  f"id={getattr(val, 'id', None)!r} result={res!r}", case)
+            elif not (isinstance(res, dict) and res.get("tag") == own):
                 ctx.violation("cross_talk", f"per-request routing, {conns} connection(s): {own} was handed {res!r}", case)
         else:
             ctx.violation("response_lost_in_transport", f"per-request routing, {conns} connection(s): {own}'s answer was sent "
@@ -634,6 +655,19 @@ def run(ctx):
                     case = {"n": n, "perm": list(perm), "connections": conns, "ids": ids, "via": "stdio_routed"}
                     if ctx.mine():
                         exec_stdio_routed_case(ctx, case)
+    for n in (2, 3, 4):
+        for perm in itertools.permutations(range(n)):
+            for reg in (None, "up_front"):
+                case = {"n": n, "perm": list(perm), "connections": 1, "ids": "type_twins", "via": "stdio_routed"}
+                if reg:
+                    case["registration"] = reg
+                if ctx.mine() and (n < 4 or perm[0] in (1, 3)):
+                    exec_stdio_routed_case(ctx, case)
+    for payload in ({}, [], 0, "", False, 0.0):
+        for n, perm in ((1, [0]), (2, [0, 1]), (3, [2, 0, 1])):
+            case = {"n": n, "perm": perm, "connections": 1, "ids": ("str", "int")[n % 2], "payload": payload, "via": "stdio_routed"}
+            if ctx.mine():
+                exec_stdio_routed_case(ctx, case)
     for n in (1, 3):
         for rounds in (2, 4):
             case = {"n": n, "perm": list(range(n)), "connections": 1, "ids": "str", "rounds": rounds, "via": "stdio_routed"}
